@@ -61,7 +61,8 @@ POINTS = {
                         "return (None, None, None)"),
 }
 REQUIRED_POINTS = list(POINTS)
-REQUIRED_CLAUSES = [history.CLAUSE, "season.longitude", "season.order-and-gaps",
+REQUIRED_CLAUSES = [history.CLAUSE, "season.longitude",
+                    "season.longitude(independent-nutation)", "season.order-and-gaps",
                     "season.year-length", "season.refuses-other-years",
                     "season.in-requested-year", "sunrise.on-requested-day",
                     "season.same-answer-when-asked-again",
@@ -110,6 +111,30 @@ def wrap(d):
 
 # ------------------------------------------------------------------ seasons
 SEASON_2000 = (2451623.81, 2451716.57, 2451810.22, 2451900.06)
+
+
+def independent_longitude(mon, y, k, s, e):
+    """The Sun's apparent longitude at the returned instant with the nutation
+    taken from the monitor's own IAU 1980 series (vpm/oracles/nutation.py)
+    instead of the library's: Earth's geometric FK5 longitude + 180 degrees
+    + Delta psi - 20.4898"/R.  A finder that iterates on the library's own
+    apparent longitude agrees with itself whatever the nutation routine
+    returns; the property is about the Sun."""
+    from pymeeus.Earth import Earth
+    from vpm.oracles import nutation as N
+    try:
+        L, _b, R = Earth.geometric_heliocentric_position(e, tofk5=True)
+        dpsi, _de = N.nutation(e.jde())
+        lon = L() + 180.0 + dpsi / 3600.0 - 20.4898 / 3600.0 / R
+    except Exception as ex:
+        mon.dev("season.longitude(independent-nutation)",
+                {"year": y, "season": s, "raised": repr(ex)})
+        return
+    err = abs(wrap(lon - 90.0 * k))
+    mon.stat("season_longitude_err_deg(independent nutation)", err, [y, s])
+    mon.check("season.longitude(independent-nutation)", err <= 1e-5,
+              lambda: {"year": y, "season": s, "jde": e.jde(),
+                       "sun_longitude_with_iau1980_nutation": lon})
 
 
 def in_year(mon, y, k, s, jde):
@@ -185,6 +210,7 @@ def case_seasons(mon, lo, hi):
                 mon.check("season.longitude", err <= 1e-5,
                           {"year": y, "season": s, "jde": e.jde(),
                            "sun_longitude": lon})
+                independent_longitude(mon, y, k, s, e)
                 if y in (-1000, 999, 1000, 3000):
                     mon.cls("year-at-table-boundary", ("season", y, s),
                             [y, s, e.jde()])
@@ -550,6 +576,9 @@ CASES = {"history": history.case, "season_mix": case_season_mix,
 
 
 def run(mon, spec):
+    from vpm.oracles import nutation as _N
+    if not _N.self_check():
+        raise RuntimeError("nutation oracle self-check failed")
     history.run_cases(mon, ID, spec)
     if spec["part"] == "seasons":
         mon.begin("seasons", [spec["lo"], spec["hi"]])
